@@ -709,6 +709,12 @@ let snprintf_store len text =
 let ipv4_to_str a len =
   (Z0, (snprintf_store len (ipv4_text a)))
 
+(** val ipv4_to_str_fixed : n -> n -> z * n list **)
+
+let ipv4_to_str_fixed a len =
+  ((if N.ltb (N.of_nat (length (ipv4_text a))) len then Z0 else Zneg XH),
+    (snprintf_store len (ipv4_text a)))
+
 (** val skip_ws : n list -> n list **)
 
 let rec skip_ws s = match s with
